@@ -283,11 +283,34 @@ def gen_case(rng, pool):
         if all(d != d0 for d, _n in nodes[k]):
             nodes[k].insert(rng.randrange(len(nodes[k]) + 1), (d0, fresh_n()))
     qdirs = [x for nd in nodes for x in nd]
-    decl = "(%s)" % ", ".join("$%s: %s" % (n, type_text(t)) for n, t, _r in vars_) if vars_ else ""
+    # the argument of a query-side directive instance is spelled as a literal, a variable, a variable whose declared
+    # default applies (variable omitted), or a variable overriding its default: the hook must see the same value
+    dvar_decls, dvars, spelled = [], {}, {}
+    for d, n in qdirs:
+        how = rng.choice(["lit", "lit", "var", "vardefault", "varoverride"])
+        vn = "dv%d" % n
+        if how == "lit":
+            spelled[(d, n)] = str(n)
+        elif how == "var":
+            dvar_decls.append("$%s: Int" % vn)
+            dvars[vn] = n
+            spelled[(d, n)] = "$" + vn
+        elif how == "vardefault":
+            dvar_decls.append("$%s: Int = %d" % (vn, n))
+            spelled[(d, n)] = "$" + vn
+        else:
+            dvar_decls.append("$%s: Int = %d" % (vn, n + 1000))
+            dvars[vn] = n
+            spelled[(d, n)] = "$" + vn
+
+    def qdirs_sdl(nd):
+        return "".join(" @%s(n: %s)" % (d, spelled[(d, n)]) for d, n in nd)
+    all_decls = ["$%s: %s" % (n, type_text(t)) for n, t, _r in vars_] + dvar_decls
+    decl = "(%s)" % ", ".join(all_decls) if all_decls else ""
     argtext = "(%s)" % ", ".join("%s: %s" % (k, lit_text(v)) for k, v in args.items()) if args else ""
     sels, frags = [], []
     for k, nd in enumerate(nodes):
-        node = "echo%s%s" % (argtext, dirs_sdl(nd))
+        node = "echo%s%s" % (argtext, qdirs_sdl(nd))
         form = "plain" if k == 0 else rng.choice(["plain", "inline", "spread"])
         if form == "plain":
             sels.append(node)
@@ -297,7 +320,7 @@ def gen_case(rng, pool):
             sels.append("...FE%d" % k)
             frags.append("fragment FE%d on Query { %s }" % (k, node))
     q = "query %s { %s obj { v vs } objs { v } } %s" % (decl, " ".join(sels), " ".join(frags))
-    return {"query": q, "variables": {n: raw_json(r) for n, _t, r in vars_}, "vars": vars_, "args": args, "qdirs": qdirs,
+    return {"query": q, "variables": dict({n: raw_json(r) for n, _t, r in vars_}, **dvars), "vars": vars_, "args": args, "qdirs": qdirs,
             "nodes": n_nodes}
 
 
